@@ -249,9 +249,20 @@ func runC10(e *Env) error {
 		{map[string]string{"L0": "{% extends 'L1' %}{% block a %}top({{ parent() }}){% endblock %}", "L1": "{% extends 'L2' %}{% block a %}mid({{ parent() }}){% endblock %}", "L2": "[{% block a %}base{% endblock %}]"}, "[top(mid(base))]"},
 		{map[string]string{"L0": "{% extends 'L1' %}{% block a %}o<{{ parent() }}>{% endblock %}", "L1": "{% for i in [1,2] %}{% block a %}b{{ i }}{% endblock %}{% endfor %}"}, "o<b1>o<b2>"},
 		{map[string]string{"L0": "x{% extends 'L1' %}y{% block a %}A{% endblock %}z", "L1": "[{% block a %}{% endblock %}|{% block b %}B{% endblock %}]"}, "[A|B]"},
+		// two inheritance chains in one render: a page chain INCLUDES a template that has a chain of its own using the same
+		// block names — each chain resolves its blocks within itself, before, inside and after the include
+		{map[string]string{"L0": "{% extends 'L1' %}{% block title %}Home/{{ parent() }}{% endblock %}{% block body %}<{% include 'card' %}>{% block title2 %}t2{% endblock %}{% endblock %}",
+			"L1":       "[{% block title %}Site{% endblock %}|{% block body %}{% endblock %}|{% block foot %}F{% endblock %}]",
+			"card":     "{% extends 'cardbase' %}{% block title %}News/{{ parent() }}{% endblock %}",
+			"cardbase": "({% block title %}Card{% endblock %}:{% block body %}cardbody{% endblock %})"}, "[Home/Site|<(News/Card:cardbody)>t2|F]"},
+		{map[string]string{"L0": "{% extends 'L1' %}{% block a %}A{% include 'inc' %}{{ parent() }}{% endblock %}", "L1": "[{% block a %}base{% endblock %}]",
+			"inc": "{% block a %}inc-a{% endblock %}{% include 'inc2' %}", "inc2": "{% extends 'L1' %}{% block a %}I2({{ parent() }}){% endblock %}"}, "[Ainc-a[I2(base)]base]"},
 	}
 	for i, c := range corpus {
-		im := runImpl(&Case{Templates: c.tpls, Main: "L0", Ctx: ctx, FailAt: -1})
+		im, _, _, cerr := compareCase(e, &Case{Templates: c.tpls, Main: "L0", Ctx: ctx, FailAt: -1}, "render-model-c10", "correspondence on the regression corpus")
+		if cerr != nil {
+			return cerr
+		}
 		r.Seen(fmt.Sprintf("corpus:%d", i), true)
 		if im.Class != "" || im.Out != c.want {
 			r.Violate(Violation{Key: "c10-corpus", What: fmt.Sprintf("corpus chain %d renders %q (%s), expected %q", i, im.Out, im.Class, c.want),
